@@ -43,10 +43,10 @@ def denominators(prop, tier, seed, a):
                 continue
             groups = denom.groups_for(w, tier, seed)
             t = {'ll': llpath, 'meta': w, 'cfg': cfg.name, 'prop': prop, 'budget': budget, 'known': kf, 'ir_hash': h, 'also': [],
-                 'handler': 'avelverif.denom.solve_task', 'groups': groups, 'tier': tier, 'soft_s': (15 if prop == 'C15' else 25) if tier == 'quick' else (600 if prop == 'C15' else 900)}
+                 'handler': 'avelverif.denom.solve_task', 'groups': groups, 'tier': tier, 'soft_s': (15 if prop == 'C15' else 25) if tier == 'quick' else (200 if prop == 'C15' else 300)}
             if w['op'] == 'div64uhi':
                 t['handler'] = 'avelverif.denom.solve_div64'
-                t['soft_s'] = 60 if tier == 'quick' else 900
+                t['soft_s'] = 60 if tier == 'quick' else 240
                 ls = [34, 36, 40, 44, 48, 52, 56, 60, 62, 63] if tier == 'quick' else list(range(2, 64))
                 t['l'] = ls[0]
                 for l_ in ls[1:]:
@@ -60,7 +60,7 @@ def denominators(prop, tier, seed, a):
         if a.verbose or r.get('status') not in ('ok', 'known'):
             print('  [%d/%d] %-40s %-8s %-13s %.1fs %s' % (done, total, r.get('name'), r.get('cfg'), r.get('status'), r.get('time', 0),
                                                            (r.get('detail') or '')[:120].replace('\n', ' ')), flush=True)
-    results = runner.run_pool(tasks, nproc=a.jobs, hard_s=100 if tier == 'quick' else 1500, progress=progress)
+    results = runner.run_pool(tasks, nproc=a.jobs, hard_s=100 if tier == 'quick' else 700, progress=progress)
     extra = {'bounds': 'numerator: every value of the type; divisor: every value for 8-bit types (symbolic), enumerated lattice otherwise '
                        '(powers of two and neighbours, +-1, extremes, 0xAA../0x55.. patterns%s); divisors outside the lattice are outside the claim for 16/32/64-bit types'
                        % (', every 16-bit divisor for the scalar types, seeded random values' if tier == 'thorough' else ''),
